@@ -1663,3 +1663,82 @@ theorem cache_transparent_moves_wellNamed (rules : List Rule) (w : World) (es : 
   cache_transparent_moves rules w es (coherent_of_wellNamed _ hn hk hm)
 
 end Privacy
+
+/-! ## Pinned behaviours (by design or outside the property; see notes/C13.md "Reviewer's list") -/
+namespace Privacy
+
+/-- (1) an object whose `kind` is `None` is HIDDEN before any rule is consulted — no rule list, not
+even an exact `PUBLIC:` rule, changes that — and the answer is not stored in the cache -/
+theorem kindNone_hidden (rules : List Rule) (c : Cache) (ob : Obj) (hk : ob.kindNone = true)
+    (hc : lookup c ob.fullName = none) : privacyClass rules c ob = (.ok .hidden, c) := by
+  simp [privacyClass, systemPrivacyClass, hc, hk]
+
+example : (privacyClass [⟨.pub, ['m', '.', 'k']⟩] [] ⟨['m', '.', 'k'], ['k'], false, true, true⟩).1 = .ok .hidden := by
+  decide
+
+/-- (2) names made of underscores only: `_` is private, `__`, `___`, `____`, … are public (they
+begin and end with two underscores, which is all the code asks of a dunder) -/
+theorem bare_underscores (n : Nat) :
+    defaultLevel (List.replicate n '_') = if n = 1 then .priv else .pub := by
+  match n with
+  | 0 => decide
+  | 1 => decide
+  | k + 2 =>
+    have h1 : startsWith ['_', '_'] (List.replicate (k + 2) '_') = true := by
+      simp [List.replicate_succ, startsWith]
+    have h2 : endsWith ['_', '_'] (List.replicate (k + 2) '_') = true := by
+      simp only [endsWith, List.reverse_replicate]
+      simp [List.replicate_succ, startsWith]
+    have h0 : startsWith ['_'] (List.replicate (k + 2) '_') = true := by
+      simp [List.replicate_succ, startsWith]
+    simp [defaultLevel, h0, h1, h2]
+
+/-- (4) the cache is never invalidated: once an object has been asked, a different rule list (an
+`options.privacy` replaced through the API after the first query; the command line cannot do that,
+the options are fixed before the System exists) does not change the answer -/
+theorem cache_survives_rule_change (r1 r2 : List Rule) (ob : Obj) (l : Level) (hk : ob.kindNone = false)
+    (h : (privacyClass r1 [] ob).1 = .ok l) :
+    (privacyClass r2 (privacyClass r1 [] ob).2 ob).1 = .ok l := by
+  simp only [privacyClass, systemPrivacyClass, lookup, hk] at h ⊢
+  cases hd : decide r1 ob with
+  | err e => simp [hd] at h
+  | ok l' =>
+    simp [hd] at h
+    subst h
+    simp [lookup]
+
+example : (privacyClass [⟨.pub, ['a']⟩] (privacyClass [⟨.hidden, ['a']⟩] [] ⟨['a'], ['a'], false, false, true⟩).2
+    ⟨['a'], ['a'], false, false, true⟩).1 = .ok .hidden := by decide
+
+/-- (5) `PUBLIC:` (empty pattern) and the alias level `visible` are accepted … -/
+theorem empty_pattern_and_alias_accepted :
+    parseRule ['P', 'U', 'B', 'L', 'I', 'C', ':'] = .ok ⟨.pub, []⟩ ∧
+    parseRule ['v', 'i', 's', 'i', 'b', 'l', 'e', ':', 'a'] = .ok ⟨.pub, ['a']⟩ := by decide
+
+end Privacy
+
+namespace Glob
+
+/-- … (5) and the empty pattern matches the empty name only: such a rule never applies to an object -/
+theorem spec_empty (n : List Char) : spec [] n = n.isEmpty := rfl
+
+/-- (3) `***` is read as `**` followed by `*` and means the same as `**` -/
+theorem spec_triple_star (n : List Char) :
+    patTokens ['*', '*', '*'] = [.dstar, .star] ∧ spec ['*', '*', '*'] n = true := by
+  have ht : patTokens ['*', '*', '*'] = [.dstar, .star] := by decide
+  refine ⟨ht, ?_⟩
+  rw [spec, ht, dstar_meaning]
+  exact ⟨n, [], by simp, by decide⟩
+
+/-- (3) a hyphen between two characters of `[seq]` is a range (the manual does not say; fnmatch
+convention), first or last it stands for itself; `&&`, `||`, `~~` inside a set are plain characters
+(CPython ≤ 3.12 compiles them with a FutureWarning; a later `re` may read them as set operations:
+that reading is a parameter of the model) -/
+theorem set_conventions :
+    spec ['[', 'a', '-', 'c', ']'] ['b'] = true ∧ spec ['[', 'a', '-', 'c', ']'] ['-'] = false ∧
+    spec ['[', 'a', '-', ']'] ['-'] = true ∧ spec ['[', '-', 'a', ']'] ['-'] = true ∧
+    qnmatch ['&'] ['[', 'a', '&', '&', 'b', ']'] = .ok true ∧ qnmatch ['c'] ['[', 'a', '&', '&', 'b', ']'] = .ok false ∧
+    qnmatch ['|'] ['[', 'a', '|', '|', 'b', ']'] = .ok true ∧ qnmatch ['~'] ['[', 'a', '~', '~', 'b', ']'] = .ok true := by
+  decide
+
+end Glob
